@@ -90,7 +90,7 @@ func runOnce(c Case, faults map[int]int) (*outcome, error) {
 	var calls []*appCall
 	var peerQ uint32
 	var serial uint64
-	nextAnswerToReturn := uint32(0)
+	var asked []rpcsim.Msg // questions of the Conn the peer has seen and not answered
 	for _, s := range c.Steps {
 		var err error
 		switch s.K {
@@ -160,12 +160,29 @@ func runOnce(c Case, faults map[int]int) (*outcome, error) {
 			if peerQ > 0 {
 				w.SendFinish(uint32(1+s.A%int(peerQ)), s.A%2 == 0)
 			}
-		case "peer-return":
-			w.SendReturn(rpcsim.PeerReturn{A: nextAnswerToReturn, Serial: 5, Caps: []rpcsim.CapDesc{{Kind: "senderHosted", ID: uint32(s.A % 2)}}})
-			nextAnswerToReturn++
-		case "peer-return-exc":
-			w.SendReturn(rpcsim.PeerReturn{A: nextAnswerToReturn, Exc: "peer says no"})
-			nextAnswerToReturn++
+		case "peer-return", "peer-return-exc":
+			// answer the oldest question the Conn has asked and the peer has not answered yet (a Bootstrap is answered
+			// with a capability, so that later calls go through the imported capability)
+			for _, m := range w.Drain() {
+				if m.Which == "bootstrap" || m.Which == "call" {
+					asked = append(asked, m)
+				}
+			}
+			if len(asked) == 0 {
+				// nothing to answer (the question may not have reached the wire because of the fault): a Return for a
+				// question that does not exist would be the peer's protocol error, which is not this check's subject
+				continue
+			}
+			q := asked[0]
+			asked = asked[1:]
+			switch {
+			case s.K == "peer-return-exc":
+				w.SendReturn(rpcsim.PeerReturn{A: q.ID, Exc: "peer says no"})
+			case q.Which == "bootstrap":
+				w.SendReturn(rpcsim.PeerReturn{A: q.ID, ContentCap: true, Caps: []rpcsim.CapDesc{{Kind: "senderHosted", ID: uint32(s.A % 2)}}})
+			default:
+				w.SendReturn(rpcsim.PeerReturn{A: q.ID, Serial: 5, Caps: []rpcsim.CapDesc{{Kind: "senderHosted", ID: uint32(s.A % 2)}}})
+			}
 		case "open":
 			world.OpenUpTo(serial)
 		case "barrier":
